@@ -104,6 +104,9 @@ func scanLong(comment bool) stateFn {
 				break OpeningLoop
 			default:
 				if comment {
+					// Not a long comment after all: what was just read (possibly
+					// the end of the line) belongs to a short comment.
+					l.backup()
 					l.ignore()
 					return scanShortComment
 				}
